@@ -40,11 +40,13 @@ def units(tier):
         us.append(Unit(B.HybridImage, {'variant': v}))
         if not (B.random_hybrid(v)[1].get('efi') or B.random_hybrid(v)[1].get('mac')):
             us.append(Unit(B.HybridImage, {'variant': v, 'reopen': True}))
+            us.append(Unit(B.HybridImage, {'variant': v, 'reopen': 'edit'}))      # the later edits made on the opened hybrid image
     for v in sorted(B.HYBRIDS):
         us.append(Unit(B.HybridImage, {'variant': v}))
         if v == 'efi-mac' or (v == 'efi' and tier == 'quick'):
             continue        # opening an EFI hybrid image inside the verifier takes minutes (efi) or longer (efi-mac): thorough tier / not run
         us.append(Unit(B.HybridImage, {'variant': v, 'reopen': True}))
+        us.append(Unit(B.HybridImage, {'variant': v, 'reopen': 'edit'}))
     return us
 
 
